@@ -1,4 +1,6 @@
 import RbV.Thm.GenSrcPoaAlign
+import RbV.Lemmas.PoaTopo
+import RbV.Lemmas.PoaHistory
 /-!
 # `Poa::custom` as translated from the source text reports the score of the checked-`i32` mirror — tie-robust (hard)
 
@@ -668,5 +670,159 @@ theorem custom_score_core (sc : Sc) (xp xs yp ys : Int) (labels : List Nat) (es 
         (by simp only; exact set_get_self hrow2) (by omega) (by omega) (by simp; omega)]
       simp [List.getD, List.getElem?_append_left, hrl]
     · simp [hmn, cmax_score, hc41s]
+
+theorem xSuffixC_length (xs : Int) (lastI : Nat) : ∀ (mcs : List (Int × Nat)) (cs : List Cell) (col : Nat) (mir : Int × Nat)
+    (rest : List Cell) (mir' : Int × Nat), xSuffixC xs lastI col mcs cs mir = some (rest, mir') → rest.length = cs.length
+  | [], cs, col, mir, rest, mir', h => by
+    simp only [xSuffixC, Option.some.injEq, Prod.mk.injEq] at h; rw [← h.1]
+  | mc :: mcs, [], col, mir, rest, mir', h => by
+    simp only [xSuffixC, Option.some.injEq, Prod.mk.injEq] at h; rw [← h.1]
+  | mc :: mcs, c :: cs, col, mir, rest, mir', h => by
+    simp only [xSuffixC] at h
+    split at h
+    · cases hr : xSuffixC xs lastI (col + 1) mcs cs mir with
+      | none => rw [hr] at h; cases h
+      | some pr =>
+        obtain ⟨r1, m1⟩ := pr
+        rw [hr] at h
+        simp only [Option.some.injEq, Prod.mk.injEq] at h
+        rw [← h.1]; simp [xSuffixC_length xs lastI mcs cs _ _ r1 m1 hr]
+    · cases ha : I32.add mc.1 xs with
+      | none => rw [ha] at h; cases h
+      | some s =>
+        rw [ha] at h
+        simp only at h
+        cases hr : xSuffixC xs lastI (col + 1) mcs cs
+            (if mir.1 < (cmax c ⟨s, .x mc.2⟩).score then ((cmax c ⟨s, .x mc.2⟩).score, col) else mir) with
+        | none => rw [hr] at h; cases h
+        | some pr =>
+          obtain ⟨r1, m1⟩ := pr
+          rw [hr] at h
+          simp only [Option.some.injEq, Prod.mk.injEq] at h
+          rw [← h.1]; simp [xSuffixC_length xs lastI mcs cs _ _ r1 m1 hr]
+
+/-- what the proofs need of the graph — true of every non-empty well-formed DAG (`graphOK_of_dag`) -/
+structure GraphOK (labels : List Nat) (es : WEdges) : Prop where
+  ne : labels ≠ []
+  preds : ∀ v, ∀ p ∈ inN es v, p < labels.length ∧ p ≠ v
+  nodup : (topo labels.length es).Nodup
+  lt : ∀ v ∈ topo labels.length es, v < labels.length
+  topo_ne : topo labels.length es ≠ []
+
+theorem graphOK_of_dag (g : G) (h : Dag g) : GraphOK g.labels g.es := by
+  obtain ⟨vis, h1, h2, h3, _⟩ := topo_spec g.labels.length g.es h.wf h.acyclic
+  have hn : 0 < g.labels.length := by
+    cases hl : g.labels with
+    | nil => exact absurd hl h.ne
+    | cons a l => simp
+  refine ⟨h.ne, ?_, by rw [h1]; exact List.pairwise_reverse.2 (List.Pairwise.imp (fun hh => Ne.symm hh) h2), ?_, ?_⟩
+  · intro v p hp
+    obtain ⟨w, hw⟩ := (mem_inN g.es v p).mp hp
+    refine ⟨(h.wf _ hw).1, ?_⟩
+    intro hpv
+    subst hpv
+    exact h.acyclic p (Reach.step (List.mem_map.mpr ⟨(p, p, w), hw, rfl⟩))
+  · intro v hv
+    rw [h1, List.mem_reverse] at hv
+    exact (h3 v).mp hv
+  · intro he
+    have : 0 ∈ vis := (h3 0).mpr hn
+    rw [h1] at he
+    simp only [List.reverse_eq_nil_iff] at he
+    rw [he] at this
+    cases this
+
+/-- **the translated `Poa::custom` reports the score of the checked-`i32` mirror `customTableC`** — all modes (any clip
+penalties), every scoring and query, every graph with `GraphOK`; tie-robust -/
+theorem custom_score_eq_model (sc : Sc) (xp xs yp ys : Int) (labels : List Nat) (es : WEdges) (query : List Nat) (t : BTable)
+    (hg : GraphOK labels es) (hm : labels.length + 1 < 2 ^ 64) (hn : query.length + 1 < 2 ^ 64)
+    (h : customTableC sc xp xs yp ys labels es query = some t) :
+    ∃ tb, custom sc.w ⟨labels, es⟩ sc.gap xp xs yp ys query = ok tb ∧ tb.last = t.last ∧ tb.cols = t.n ∧ tb.rows = labels.length ∧
+      ∃ c, Traceback_get tb (tb.last + 1) tb.cols = ok c ∧ c.score = t.score := by
+  unfold customTableC at h
+  simp only at h
+  cases h0 : bRow0C sc.gap yp query.length with
+  | none => rw [h0] at h; cases h
+  | some r0 =>
+    rw [h0] at h
+    simp only at h
+    cases hst : foldlC (cStepC sc xp labels es query r0)
+        { rows := Array.replicate labels.length (emptyRow query.length), maxcol := List.replicate (query.length + 1) ((0 : Int), 0) }
+        (topo labels.length es) with
+    | none => rw [hst] at h; cases h
+    | some st =>
+      rw [hst] at h
+      simp only at h
+      cases hx : xSuffixC xs ((topo labels.length es).getLastD 0 + 1) 0 st.maxcol
+          ((List.range (query.length + 1)).map (st.rows.getD ((topo labels.length es).getLastD 0) (emptyRow query.length)).get) (0, 0) with
+      | none => rw [hx] at h; cases h
+      | some pr =>
+        obtain ⟨cells1, mir⟩ := pr
+        rw [hx] at h
+        simp only at h
+        cases hy : I32.add mir.1 ys with
+        | none => rw [hy] at h; cases h
+        | some s =>
+          rw [hy] at h
+          simp only [Option.some.injEq] at h
+          obtain ⟨tb, e, el, ec, er, c, hc, hcs⟩ := custom_score_core sc xp xs yp ys labels es query r0 st cells1 mir s hg.ne hm hn
+            hg.preds hg.nodup hg.lt hg.topo_ne h0 hst hx hy
+          have hsz : st.rows.size = labels.length := by
+            have hfold : ∀ (order : List Nat) (a b : CState), foldlC (cStepC sc xp labels es query r0) a order = some b →
+                b.rows.size = a.rows.size := by
+              intro order
+              induction order with
+              | nil => intro a b hh; simp only [foldlC, Option.some.injEq] at hh; rw [hh]
+              | cons v l ih =>
+                intro a b hh
+                obtain ⟨a', h1, h2⟩ := foldlC_cons_some hh
+                rw [ih a' b h2]
+                unfold cStepC at h1
+                simp only at h1
+                split at h1
+                · cases h1
+                · simp only [Option.some.injEq] at h1
+                  rw [← h1]; simp
+            rw [hfold _ _ _ hst]; simp
+          have hL : (topo labels.length es).getLastD 0 < labels.length := hg.lt _ (getLastD_mem _ _ hg.topo_ne)
+          subst h
+          refine ⟨tb, e, el, ec, er, c, by rw [el, ec]; exact hc, ?_⟩
+          rw [hcs]
+          simp only [BTable.score, BTable.cell, Nat.add_sub_cancel, Nat.add_one_ne_zero, if_false]
+          have hget : (st.rows.setIfInBounds ((topo labels.length es).getLastD 0)
+              { cells := if mir.2 ≠ query.length then setAt cells1 query.length (cmax (cells1.getD query.length mcell) ⟨s, .y mir.2 query.length⟩) else cells1,
+                start := 0, stop := query.length + 1 }).getD ((topo labels.length es).getLastD 0) (emptyRow query.length) =
+              { cells := if mir.2 ≠ query.length then setAt cells1 query.length (cmax (cells1.getD query.length mcell) ⟨s, .y mir.2 query.length⟩) else cells1,
+                start := 0, stop := query.length + 1 } := by
+            have hL' : (topo labels.length es).getLastD 0 < st.rows.size := by omega
+            simp only [Array.getD, Array.size_setIfInBounds, hL', dite_true, Array.getElem_setIfInBounds, if_true]
+            simp
+          rw [hget]
+          have hc1len : cells1.length = query.length + 1 := by
+            rw [xSuffixC_length _ _ _ _ _ _ _ _ hx]; simp
+          rw [brow_get_inband _ query.length rfl (by simp) (by
+            simp only
+            split
+            · simp [setAt]; intro hh; rw [hh] at hc1len; simp at hc1len
+            · intro hh; rw [hh] at hc1len; simp at hc1len)]
+          simp only
+          split
+          · simp [setAt, List.getD, hc1len]
+          · rfl
+
+/-- the score `Traceback::alignment` reports is `get(last + 1, cols).score` -/
+theorem alignment_score (tb : Rs.Poa.Traceback) (a : Rs.Poa.Alignment) (h : Traceback_alignment tb = ok a) :
+    ∃ c, Traceback_get tb (tb.last + 1) tb.cols = ok c ∧ a.score = c.score := by
+  unfold Traceback_alignment at h
+  simp only [Res.bind_eq_ok, Res.pure_eq_ok] at h
+  obtain ⟨t1, h1, st, _, t12, h12, c, hc, ha⟩ := h
+  unfold Rs.add at h1 h12
+  split at h1
+  · rename_i hlt
+    simp only [if_pos hlt, Res.ok.injEq] at h1 h12
+    subst h1; subst h12
+    simp only [Res.ok.injEq] at ha
+    exact ⟨c, hc, by rw [← ha]⟩
+  · cases h1
 
 end RbV.Thm.GenSrcPoaScore
